@@ -18,9 +18,8 @@ namespace PorepyVerif.C35
     the docstring — for all integer arrays of equal length (empty and negative-length intervals,
     negative bounds included). -/
 theorem expand_index_pointers_eq_ranges (lo hi : List Int) (h : lo.length = hi.length) :
-    expandIndexPointers lo hi = .ok (expandSpec lo hi) := by
-  have hb : broadcastLoHi lo hi = (lo, hi) := broadcastLoHi_same_length lo hi h
-  simp only [expandIndexPointers, hb, h, ne_eq, not_true_eq_false, if_false, expandCore_eq_spec]
+    expandIndexPointers lo hi = .ok (expandSpec lo hi) :=
+  expand_index_pointers_same_length lo hi h
 
 /-- … and with numpy broadcasting of a single bound; unequal lengths are the `ValueError`. -/
 theorem expand_index_pointers_broadcast (lo hi : List Int) :
@@ -38,21 +37,239 @@ example : expandIndexPointers [3, -3, 5, 5] [2, -1, 7, 5] = .ok [-3, -2, 5, 6] :
 /-- `rldecode(A, n)` = `np.repeat(A, n)` (counts ≤ 0 contribute nothing), for every value list and
     every count list that is not longer than the values. -/
 theorem rldecode_eq_repeat {α} [Inhabited α] (a : List α) (n : List Int) (h : n.length ≤ a.length) :
-    rldecode a n = .ok (rldecodeSpec a n) := by
-  have hidx := rldecode_idx n
-  simp only at hidx
-  have hall : (repeatSpec (whereTrue (n.map (fun c => decide (0 < c)))) (posCounts n)).any
-      (fun k => decide (a.length ≤ k)) = false := by
-    rw [List.any_eq_false]
-    intro k hk
-    have hm := mem_repeatSpec _ _ k hk
-    have := trueIdxFrom_bounds 0 _ k hm
-    simp only [List.length_map] at this
-    simp only [decide_eq_true_eq]; omega
-  simp only [rldecode, hidx, hall, gather_repeatSpec, Bool.false_eq_true, if_false]
-  simp only [whereTrue]
-  rw [repeatSpec_pos_eq_spec a n a 0 rfl h]
+    rldecode a n = .ok (rldecodeSpec a n) := rldecode_eq_repeat' a n h
 
 example : rldecode [1, 2, 3] [2, 0, 1] = .ok [1, 1, 3] := by decide +kernel
+
+/-- `rlencode(A)` returns the maximal runs of equal neighbouring columns: values and lengths. -/
+theorem rlencode_eq_runs {α} [DecidableEq α] [Inhabited α] (a : List α) (h : a ≠ []) :
+    rlencode a = .ok ((rleSpec a).map (·.1), (rleSpec a).map (fun p => (p.2 : Int))) := by
+  obtain ⟨h1, h2⟩ := rle_main a a 0 (-1) h rfl
+  have hl : a.length ≠ 0 := fun e => h (List.eq_nil_of_length_eq_zero e)
+  have e : rleIdx 0 a = (trueIdxFrom 0 (neighbourDiff a)).map (fun (k : Nat) => (k : Int)) ++ [(a.length : Int) - 1] := by
+    simp [rleIdx]
+  rw [e] at h1 h2
+  simp only [rlencode, hl, if_false, h1, h2]
+  congr 2
+  cases hs : (rleSpec a).map (fun p => (p.2 : Int)) with
+  | nil => rfl
+  | cons c cs => simp [bumpI]
+
+/-- The runs returned by `rlencode` are maximal (neighbouring values differ), non-empty, and decode
+    back to the input. -/
+theorem rleSpec_characterisation {α} [DecidableEq α] (a : List α) :
+    (neighbourDiff ((rleSpec a).map (·.1))).all id = true ∧ (∀ p ∈ rleSpec a, 1 ≤ p.2) ∧
+    rldecodeSpec ((rleSpec a).map (·.1)) ((rleSpec a).map (fun p => (p.2 : Int))) = a :=
+  ⟨(rleSpec_maximal a).1, (rleSpec_maximal a).2, rldecodeSpec_rleSpec a⟩
+
+/-- Round trip on the real algorithms: `rldecode(*rlencode(A)) = A` for every non-empty `A`. -/
+theorem rldecode_rlencode {α} [DecidableEq α] [Inhabited α] (a : List α) (h : a ≠ []) :
+    ∃ v c, rlencode a = .ok (v, c) ∧ rldecode v c = .ok a := by
+  refine ⟨_, _, rlencode_eq_runs a h, ?_⟩
+  rw [rldecode_eq_repeat _ _ (by simp), rldecodeSpec_rleSpec]
+
+example : rlencode [1, 1, 2, 2, 2, 1] = .ok ([1, 2, 1], [2, 3, 1]) := by decide +kernel
+example : rlencode ([] : List Int) = .error "IndexError" := by decide +kernel
+
+/-! ## stacking -/
+
+/-- `stack_mat(A, B)` (csr: `vstack`, csc: `hstack` of the transposed reading): the dense matrix of
+    the result is the dense matrix of `A` followed by the lines of `B`; the result is well formed. -/
+theorem stack_mat_eq_vstack (A B : Csr) (hA : A.WF) (hB : B.WF) (hc : A.ncols = B.ncols) :
+    (stackMat A B).toDense = A.toDense ++ B.toDense ∧ (stackMat A B).WF := by
+  obtain ⟨RA, eA, okA, -⟩ := WF_cases A hA
+  obtain ⟨RB, eB, okB, -⟩ := WF_cases B hB
+  rw [← hc] at eB okB
+  generalize A.ncols = nc at *
+  subst eA eB
+  rw [stackMat_ofRows, toDense_ofRows, toDense_ofRows, toDense_ofRows, List.map_append]
+  exact ⟨rfl, WF_ofRows _ _ (RowsOk_append okA okB)⟩
+
+/-- `stack_diag(A, B)` = `[[A, 0], [0, B]]` densely (the behaviour the property demands; the code's
+    shortcut for a `B` without lines deviates, see finding `stack_diag-empty-B-shape`). -/
+theorem stack_diag_eq_block_diag (A B : Csr) (hA : A.WF) (hB : B.WF) :
+    (stackDiag A B).toDense = diagDense A.toDense A.ncols B.toDense B.ncols ∧ (stackDiag A B).WF := by
+  obtain ⟨RA, eA, okA, -⟩ := WF_cases A hA
+  obtain ⟨RB, eB, okB, -⟩ := WF_cases B hB
+  generalize A.ncols = ncA at *
+  generalize B.ncols = ncB at *
+  subst eA eB
+  rw [stackDiag_ofRows, toDense_ofRows, toDense_ofRows, toDense_ofRows, List.map_append]
+  refine ⟨?_, WF_ofRows _ _ (RowsOk_append (RowsOk_mono okA (Nat.le_add_right _ _)) (RowsOk_shift okB))⟩
+  simp only [diagDense, List.map_map]
+  congr 1
+  · apply List.map_congr_left
+    intro r hr
+    exact denseRow_add_left ncA ncB r (okA r hr)
+  · apply List.map_congr_left
+    intro r _
+    exact denseRow_add_right ncA ncB r
+
+example : (stackDiag ⟨1, 2, [0, 1], [1], [5]⟩ ⟨2, 1, [0, 0, 1], [0], [7]⟩).toDense
+    = [[0, 5, 0], [0, 0, 0], [0, 0, 7]] := by decide +kernel
+
+/-! ## slicing -/
+
+/-- `slice_sparse_matrix(A, ind)`: line `k` of the result is line `ind[k]` of `A` — dense fancy
+    indexing `A[ind, :]` — for every index list (unsorted, repeated, empty) in range. -/
+theorem slice_eq_dense_index (A : Csr) (hA : A.WF) (ind : List Nat) (hi : ∀ i ∈ ind, i < A.nrows) :
+    (sliceLines A ind).toDense = sliceDense A.toDense A.ncols ind ∧ (sliceLines A ind).WF ∧
+    (sliceLines A ind).rows = ind.map (fun i => A.rows.getD i []) := by
+  obtain ⟨R, eA, okA, -⟩ := WF_cases A hA
+  have hn : A.nrows = R.length := by rw [eA]; rfl
+  rw [hn] at hi
+  generalize A.ncols = nc at *
+  subst eA
+  have hok : RowsOk nc (ind.map (fun i => R.getD i [])) := by
+    intro r hr e he
+    obtain ⟨i, hi', rfl⟩ := List.mem_map.mp hr
+    have hlt := hi i hi'
+    have : R.getD i [] ∈ R := by
+      simp only [List.getD_eq_getElem?_getD, List.getElem?_eq_getElem hlt, Option.getD_some]
+      exact List.getElem_mem hlt
+    exact okA _ this e he
+  rw [sliceLines_ofRows nc R ind hi, toDense_ofRows, toDense_ofRows, rows_ofRows, rows_ofRows]
+  refine ⟨?_, WF_ofRows _ _ hok, rfl⟩
+  simp only [sliceDense, List.map_map]
+  apply List.map_congr_left
+  intro i hi'
+  exact (getD_map_denseRow nc R i (hi i hi')).symm
+
+/-- boolean masks: `slice_sparse_matrix(A, mask)` slices with `np.where(mask)[0]`, which are the
+    positions of the `True` entries, in increasing order and in range. -/
+theorem whereTrue_spec (mask : List Bool) :
+    ∀ i ∈ whereTrue mask, i < mask.length := by
+  intro i hi
+  have := trueIdxFrom_bounds 0 mask i hi
+  omega
+
+/-- `slice_indices(A, ind)`: the column indices stored in the lines `ind`, line after line. -/
+theorem slice_indices_eq (A : Csr) (hA : A.WF) (ind : List Nat) (hi : ∀ i ∈ ind, i < A.nrows) :
+    (sliceIndices A ind).1 = (ind.map (fun i => (A.rows.getD i []).map (·.1))).flatten := by
+  obtain ⟨R, eA, -, -⟩ := WF_cases A hA
+  have hn : A.nrows = R.length := by rw [eA]; rfl
+  rw [hn] at hi
+  generalize A.ncols = nc at *
+  subst eA
+  rw [sliceIndices_ofRows nc R ind hi, rows_ofRows, List.map_flatten, List.map_map]
+  rfl
+
+example : (sliceLines ⟨3, 3, [0, 2, 2, 4], [0, 2, 0, 1], [1, 2, 3, 4]⟩ [2, 2, 0]).toDense
+    = [[3, 4, 0], [3, 4, 0], [1, 0, 2]] := by decide +kernel
+
+/-! ## zeroing -/
+
+/-- `zero_rows(A, rows)` / `zero_columns`: densely `A[rows, :] = 0`; the sparsity structure
+    (`indptr`, `indices`) is untouched; any index list (unsorted, repeated, empty) in range. -/
+theorem zero_rows_eq_dense (A : Csr) (hA : A.WF) (rows : List Nat) (hi : ∀ i ∈ rows, i < A.nrows) :
+    (zeroLines A rows).toDense = zeroRowsDense A.toDense rows ∧
+    (zeroLines A rows).indptr = A.indptr ∧ (zeroLines A rows).indices = A.indices ∧ (zeroLines A rows).WF := by
+  refine ⟨?_, rfl, rfl, ?_⟩
+  · obtain ⟨R, eA, okA, -⟩ := WF_cases A hA
+    have hn : A.nrows = R.length := by rw [eA]; rfl
+    rw [hn] at hi
+    generalize A.ncols = nc at *
+    subst eA
+    rw [zeroLines_ofRows nc R rows hi, toDense_ofRows, toDense_ofRows, zeroRowsR_dense nc R rows hi]
+  · have hlen : ∀ (x : List Rat) (idx : List Nat) (v : Rat), (scatterConst x idx v).length = x.length := by
+      intro x idx v
+      induction idx generalizing x with
+      | nil => rfl
+      | cons i is ih => simp [scatterConst, ih]
+    have hw : (zeroLines A rows).wfb = A.wfb := by simp only [Csr.wfb, zeroLines, hlen]; rfl
+    show (zeroLines A rows).wfb = true
+    rw [hw]; exact hA
+
+example : (zeroLines ⟨3, 3, [0, 2, 2, 4], [0, 2, 0, 1], [1, 2, 3, 4]⟩ [2, 2, 1]).toDense
+    = [[1, 0, 2], [0, 0, 0], [0, 0, 0]] := by decide +kernel
+
+/-! ## block-diagonal construction from sparse blocks -/
+
+/-- `csr_matrix_from_sparse_blocks(blocks)` / `csc_…`: densely the block-diagonal matrix of the
+    blocks (`sps.block_diag`), for any non-empty list of well-formed blocks — blocks with zero
+    rows and/or zero columns included; an empty list is the `ValueError` of `np.concatenate`. -/
+theorem from_sparse_blocks_eq_block_diag (bs : List Csr) (hbs : ∀ b ∈ bs, b.WF) (hne : bs ≠ []) :
+    ∃ C, fromSparseBlocks bs = .ok C ∧
+      C.toDense = (blockDiagDense (bs.map (fun b => (b.toDense, b.ncols)))).1 ∧
+      C.ncols = (blockDiagDense (bs.map (fun b => (b.toDense, b.ncols)))).2 ∧ C.WF := by
+  match bs, hne with
+  | [b], _ =>
+    refine ⟨b, rfl, ?_, ?_, hbs b List.mem_cons_self⟩
+    · simp [blockDiagDense, diagDense]
+    · simp [blockDiagDense]
+  | b1 :: b2 :: bs', _ =>
+    generalize hbl : b1 :: b2 :: bs' = bl at hbs
+    let Rs := bl.map (fun b => (b.ncols, b.rows))
+    have hRs : bl = Rs.map (fun p => ofRows p.1 p.2) := by
+      simp only [Rs, List.map_map]
+      conv => lhs; rw [← List.map_id bl]
+      apply List.map_congr_left
+      intro b hb
+      exact (WF_eq_ofRows b (hbs b hb)).1
+    have hok : ∀ p ∈ Rs, RowsOk p.1 p.2 := by
+      intro p hp
+      obtain ⟨b, hb, rfl⟩ := List.mem_map.mp hp
+      exact (WF_eq_ofRows b (hbs b hb)).2
+    have hC : fromSparseBlocks bl = .ok (ofRows (sumN (Rs.map (·.1))) (blkRows 0 Rs)) := by
+      rw [← hbl]
+      simp only [fromSparseBlocks]
+      rw [hbl, hRs, blockArrays_ofRows Rs 0 0]
+      simp only [ofRows, ← ptrsFrom_eq_cons, length_blkRows, List.map_map]
+      congr 3
+    refine ⟨_, hC, ?_, ?_, ?_⟩
+    · obtain ⟨h1, h2⟩ := blkRows_dense Rs hok
+      rw [toDense_ofRows, h1]
+      simp only [Rs, List.map_map, Function.comp_def, Csr.toDense]
+    · obtain ⟨h1, h2⟩ := blkRows_dense Rs hok
+      show (ofRows (sumN (Rs.map (·.1))) (blkRows 0 Rs)).ncols = _
+      simp only [ofRows]
+      rw [← h2]
+      simp only [Rs, List.map_map, Function.comp_def, Csr.toDense]
+    · have := RowsOk_blkRows Rs 0 hok
+      rw [Nat.zero_add] at this
+      exact WF_ofRows _ _ this
+
+theorem from_sparse_blocks_empty : fromSparseBlocks [] = .error "ValueError" := rfl
+
+/-! ## Kronecker expansion, index expansion -/
+
+/-- `sps.kron(A, eye(nd))` in compressed form has the dense Kronecker product with the identity as
+    its dense matrix (every `A`, well formed or not; `nd = 0` gives the empty matrix). -/
+theorem kron_identity_dense (A : Csr) (nd : Nat) : (kronI A nd).toDense = kronDense A.toDense nd :=
+  kronI_dense A nd
+
+/-- `expand_indices_nd(ind, nd, "F")` lists `nd*i + d` for every index `i` and `d < nd`, index by
+    index (the rows of `kron(·, I_nd)` that belong to the rows `ind`); `"C"` lists them `d` by `d`. -/
+theorem expand_indices_nd_eq (ind : List Int) (nd : Nat) :
+    expandIndicesNd ind nd true = expandNdSpecF ind nd ∧
+    (nd ≠ 1 → expandIndicesNd ind nd false = expandNdSpecC ind nd) :=
+  ⟨expandIndicesNd_F ind nd, expandIndicesNd_C ind nd⟩
+
+/-- `expand_indices_add_increment(x, n, incr)` lists `x_k + incr*d`, `d < n`, entry by entry. -/
+theorem expand_indices_add_increment_eq (x : List Int) (n : Nat) (incr : Int) :
+    expandIndicesIncr x n incr = expandIncrSpec x n incr := expandIndicesIncr_eq x n incr
+
+example : expandIndicesNd [0, 1, 3] 2 true = [0, 1, 2, 3, 6, 7] := by decide +kernel
+example : (kronI ⟨1, 2, [0, 2], [1, 0], [5, 7]⟩ 2).toDense = [[7, 0, 5, 0], [0, 7, 0, 5]] := by decide +kernel
+
+/-! ## block-diagonal index generation -/
+
+/-- `block_diag_index(m)` (square blocks): the row coordinates of the entries of the block diagonal,
+    block after block and column after column inside a block. -/
+theorem block_diag_index_square (m : List Nat) :
+    blockDiagIndexSq 0 m = (bdiSpec 0 0 m m).map (·.1) := blockDiagIndexSq_eq 0 m
+
+/-- `block_diag_index(m, n)` (rectangular blocks `m_k × n_k`, zero sizes allowed): the (row, column)
+    coordinates of all entries of the block diagonal, block after block, column after column —
+    computed by the code through `rldecode` and `expand_index_pointers`. -/
+theorem block_diag_index_eq_coordinates (m n : List Nat) (h : m.length = n.length) :
+    blockDiagIndex (m.map (fun (c : Nat) => (c : Int))) (n.map (fun (c : Nat) => (c : Int)))
+      = .ok ((bdiSpec 0 0 m n).map (fun p => ((p.1 : Nat) : Int)),
+             (bdiSpec 0 0 m n).map (fun p => ((p.2 : Nat) : Int))) :=
+  blockDiagIndex_eq m n h
+
+example : blockDiagIndex [2, 0, 1] [1, 0, 2] = .ok ([0, 1, 2, 2], [0, 0, 1, 2]) := by decide +kernel
+example : bdiSpec 0 0 [2, 3] [1, 2] = [(0, 0), (1, 0), (2, 1), (3, 1), (4, 1), (2, 2), (3, 2), (4, 2)] := by
+  decide +kernel
 
 end PorepyVerif.C35
